@@ -137,6 +137,19 @@ CHECKS = {
         "Hypothesis configuration generation against a stateful simulated NCP; frame-log invariants + metamorphic twin run",
         "DESIGN.md 4/C16",
     ),
+    "C15": (
+        "exploration",
+        "Model-based history testing of bellows.multicast.Multicast through real EZSP frames into a simulated NCP whose "
+        "multicast table is the model: every operation sequence up to length 3 (thorough 4) over 3 groups x {accepted, "
+        "rejected, unanswered -> command timeout} for table sizes 0..3 and two initial contents, plus Hypothesis histories of "
+        "up to 12 start-up/subscribe/unsubscribe operations over 5 groups, sizes 0..4, random initial tables and versions "
+        "4/8/13/14. After every operation: host's subscribed set equals the NCP entries with non-zero endpoint, used and free "
+        "indices partition the table, a failed call leaves the free count unchanged, re-subscribe is write-free, a full table "
+        "refuses; at the end fresh groups can be subscribed exactly as many times as the NCP has free entries.",
+        "Host view is read from Multicast._multicast/_available and confirmed behaviourally; unanswered writes are not applied by the simulator.",
+        "exhaustive operation sequences to a bound + Hypothesis histories against a model (the simulated table); invariants after every step",
+        "DESIGN.md 4/C15",
+    ),
 }
 
 NOT_YET = "check not built yet in this session (planned, see DESIGN.md section 4)"
